@@ -23,6 +23,9 @@ def judge(run, trace_path, label):
             i -= 1
         hist = events[i:b["l"]]
         key = "coll:%s:%s:%s" % (b["kind"], b["op"], "+".join(b["why"]))
+        if b["op"] in ("SaveLoadJSON", "SaveLoadGob"):
+            run.note(key, "persisting a %s and reading it back changed it (a codec matter: C01/C03)" % b["kind"])
+            continue
         if b["op"] in ("First", "IRIs", "Normalize", "ItemsMatch") and set(b["why"]) <= {"reply"}:
             run.note(key, "reply of %s differs from Collections.tla" % b["op"])     # views of the list: specified, but not part of C13's statement
             continue
